@@ -455,3 +455,43 @@ pub fn e_shift(e: &E, cutoff: usize, amount: i64) -> Option<E> {
         E::If(c, t, f) => E::If(bx(e_shift(c, cutoff, amount)?), bx(e_shift(t, cutoff, amount)?), bx(e_shift(f, cutoff, amount)?)),
     })
 }
+
+// Does variable `idx` (relative to the root of `e`) occur free in `e`? Solved holes are followed.
+pub fn e_mentions(e: &E, idx: usize) -> bool {
+    match e {
+        E::Var(_, i) => *i == idx,
+        E::Hole(_, sh, Some(c)) => idx >= *sh && e_mentions(c, idx - *sh),
+        E::Hole(_, _, None) | E::Type | E::Int | E::Bool | E::True | E::False | E::Lit(_) => false,
+        E::Lam(_, _, d, b) | E::Pi(_, _, d, b) => e_mentions(d, idx) || e_mentions(b, idx + 1),
+        E::App(a, b) | E::Bin(_, a, b) => e_mentions(a, idx) || e_mentions(b, idx),
+        E::Let(defs, body) => {
+            let n = defs.len();
+            defs.iter().any(|(_, a, d)| e_mentions(a, idx + n) || e_mentions(d, idx + n)) || e_mentions(body, idx + n)
+        }
+        E::Neg(a) => e_mentions(a, idx),
+        E::If(c, t, f) => e_mentions(c, idx) || e_mentions(t, idx) || e_mentions(f, idx),
+    }
+}
+
+impl E {
+    // Names of unused function-type parameters are not observable in printed text.
+    pub fn norm_unused_pi_names(&self) -> E {
+        match self {
+            E::Pi(n, im, d, b) => {
+                let name = if e_mentions(b, 0) { n.clone() } else { "_".to_owned() };
+                E::Pi(name, *im, bx(d.norm_unused_pi_names()), bx(b.norm_unused_pi_names()))
+            }
+            E::Hole(id, sh, c) => E::Hole(*id, *sh, c.as_ref().map(|c| bx(c.norm_unused_pi_names()))),
+            other => other.map_children(&mut |c, _| c.norm_unused_pi_names()),
+        }
+    }
+    pub fn any(&self, f: &mut dyn FnMut(&E) -> bool) -> bool {
+        let mut r = false;
+        self.visit(&mut |e| {
+            if f(e) {
+                r = true;
+            }
+        });
+        r
+    }
+}
